@@ -33,7 +33,13 @@ META = dict(
          "or with the certificate algorithm name} with an application that approves the key, each session ending in "
          "the genuine login; (b) every auth callback returning values outside the three AUTH_* constants (None, "
          "True, False, 3, -1, 'yes', '', [], a misplaced InteractiveQuery): only the int AUTH_SUCCESSFUL justifies "
-         "a grant.",
+         "a grant. Round 4: (a) cells {application has GSS-API enabled, disabled} x {gssapi-with-mic, gssapi-keyex} x "
+         "{valid, garbage, empty, other-user, other-session MIC} with gssapi callbacks that would approve: with "
+         "GSS-API disabled only check_auth_none can justify a grant, and a gssapi-with-mic grant needs a MIC valid "
+         "for this session and user (the stub context now verifies it); (b) RSA requests whose signature blob is "
+         "labelled with another RSA algorithm than the request names (all ordered pairs, plain and certificate), "
+         "bytes garbage / by another key / replayed / valid under the label's hash: a signature counts as valid "
+         "for a request only if its label names the request's algorithm.",
     note="A request with a method name the server does not implement (or a gssapi method while the application "
          "disabled GSS-API) is answered from check_auth_none(username); a grant there counts as approved by the "
          "application ('none' approved for that user). Algorithm/hash mismatches inside an otherwise valid RSA "
@@ -875,10 +881,11 @@ def analyse(ctx, sess, desc, labels, auth_samples, name_samples=()):
         if info.get("kind") != "request" and not info["kind"].startswith("continuation"):
             ctx.violation("USERAUTH_SUCCESS sent in reply to %s" % info["kind"],
                           "a grant was sent although the message read was no authentication request", wit)
-        elif info.get("gss_disabled"):
+        elif info.get("gss_callback_evaluated_while_disabled"):
+            # (a grant with GSS-API disabled and no gssapi callback evaluated falls to the generic branch below:
+            # "… GSS-API disabled by the application and check_auth_none did not return AUTH_SUCCESSFUL")
             ctx.violation("GSS-API grant although the application has GSS-API authentication disabled (%s%s)"
-                          % (info.get("method"), ", check_auth_gssapi callback evaluated"
-                             if info.get("gss_callback_evaluated_while_disabled") else ""),
+                          % (info.get("method"), ", check_auth_gssapi callback evaluated"),
                           "enable_auth_gssapi() answers False and check_auth_none did not approve the user, yet a "
                           "%s message produced USERAUTH_SUCCESS" % info.get("method"), wit)
         elif info.get("method") == "gssapi-with-mic(mic)" and info["cbstate"] == "approved" and info.get("mic_valid") is False:
